@@ -21,6 +21,9 @@ func checkC06(c *Ctx, r *Report) {
 	c06b(c, r)
 	c06c(c, r, st)
 	c06d(c, r, st)
+	// default reductions may replace error cells only through the row default itself: a cell is blanked exactly when
+	// it equals its own row's default, otherwise an error cell (e.g. the %nonassoc one) silently becomes a reduce
+	includeSome(r, "C06.d", func(sub *Report) { c05c(c, sub) }, "blank-equals-own-default")
 	// a token code must reach a terminal's column only: translate's cases are exactly the terminals (C11.c)
 	sub := &Report{Prop: "C06", Extra: map[string]interface{}{}}
 	c11c(c, sub, st)
